@@ -84,6 +84,8 @@ class NetworkService(ModelElement):
             super().__init__(name=name, node_id=node_id, topo=topo)
             if nstype is None:
                 raise TopologyException("When creating new services you must specify ServiceType")
+            if interfaces is not None and not isinstance(interfaces, (list, tuple)):
+                raise TopologyException("When creating new services interfaces must be specified as a list.")
 
             sliver = NetworkServiceSliver()
             sliver.node_id = self.node_id
